@@ -2227,7 +2227,7 @@ def convert_squared_difference(op, arch, nng):
         DebugDatabase.add_optimised(op, mul_op)
 
         # Calculate the raw diff
-        raw_diff = ifm.clone(suffix="_raw_diff", set_unique=True)
+        raw_diff = ofm.clone(suffix="_raw_diff", set_unique=True)
         raw_diff.dtype = DataType.int32
         raw_diff.quantization = None
         sub_op = Operation(Op.Sub, op.name + "_raw_diff")
@@ -2238,7 +2238,7 @@ def convert_squared_difference(op, arch, nng):
         DebugDatabase.add_optimised(op, sub_op)
 
         # Calculate the squared diff
-        squared_raw = ifm.clone(suffix="_squared_raw", set_unique=True)
+        squared_raw = ofm.clone(suffix="_squared_raw", set_unique=True)
         squared_raw.dtype = DataType.int32
         squared_raw.quantization = None
         mul_op = Operation(Op.Mul, op.name + "_squared_raw")
